@@ -132,3 +132,15 @@ package calc
 //@   requires c != nil && c.trie != nil
 //@   ghost at call visitAllRoutes#1: check arg1 == c.trie.v4T
 //@   ghost at call visitAllRoutes#2: check arg1 == c.trie.v6T
+
+//@ -- C28 at the consumer: when Felix owns the IPIP pools' cluster routes (IPIP enabled and the setting assigns
+//@ -- them to Felix), the calculation graph contains the L3 route resolver - the only producer of the route
+//@ -- updates from which those routes are programmed.  Otherwise neither Felix nor BIRD would program them.
+//@ ghost c28Resolver bool
+//@ func NewCalculationGraph
+//@   property C28
+//@   option safety off
+//@   option frozen conf
+//@   requires conf != nil && !c28Resolver
+//@   ghost at call NewL3RouteResolver: c28Resolver = true
+//@   ensures conf.Encapsulation.IPIPEnabled && felixIPIP(conf.ProgramClusterRoutes) ==> c28Resolver
